@@ -5,13 +5,24 @@ import os
 
 VERIF = os.path.dirname(os.path.dirname(os.path.abspath(__file__)))
 
-CHECKS = {
-    "C20": dict(
-        text="Lean 4 theorems over a model of the retry loop (all n, all infinite outcome scripts): model = spec, bound n+1, stop at first acceptable, exhaustion returns the last response and error, trace = call (sleep call)*. Model tied to middleware/retry.go by running the real middleware in-process on every script of length n+1 over six outcome classes for n = 0..5 (exhaustive) plus timing and random legs.",
-        note="Lean kernel + standard axioms; the correspondence (harness cmd/rt + Lean driver) ties the model to the code; time.Sleep lower bound assumed.",
-        technique="Lean 4 proof (induction over the loop) + exhaustive model/implementation correspondence",
-        design="5/C20"),
-}
+import importlib
+import sys
+
+sys.path.insert(0, os.path.dirname(os.path.abspath(__file__)))
+
+
+def load_checks():
+    """every tools/props/cXX.py that defines MANIFEST = dict(text=, note=, technique=, design=) is a claimed check"""
+    out = {}
+    for fn in sorted(os.listdir(os.path.join(VERIF, "tools", "props"))):
+        if fn.startswith("c") and fn.endswith(".py"):
+            mod = importlib.import_module("props." + fn[:-3])
+            if hasattr(mod, "MANIFEST"):
+                out[mod.PROP] = mod.MANIFEST
+    return out
+
+
+CHECKS = load_checks()
 
 PENDING_REASON = "framework for this property is not built yet (work in progress; see DESIGN.md section 5 for the plan)"
 
